@@ -455,13 +455,12 @@ def _gen_frame(rng, tier):
         yield Case("frameshifts", [1, rows_str(rows), flag], gappy, "frameshifts-multi" if extra else "frameshifts")
         code = rng.choice([0, 1, 2])
         L = len(ref)
-        # two documented-meaning deviations of Stops are kept out of the generator (DESIGN 11.4: candidate defects):
-        # the last two columns are never read, and with more than two rows `phase` / `started` are carried over
+        # (two deviations of Stops from its documented meaning - the last two columns never read, `phase` / `started`
+        # carried from row to row - were kept out of the generator until they were repaired in /repo; every case is
+        # generated now)
         full = [_py_stop_doc(ref, r[1], flag, code) for r in rows[1:]]
-        cut = [_py_stop_doc(ref, r[1], flag, code, L - 2) for r in rows[1:]]
-        if every or (full == cut and (len(rows) == 2 or not flag)):
-            yield Case("stops", [1, rows_str(rows), flag, code], any(p > 0 for p in full),
-                       "stops-multi" if extra else "stops")
+        yield Case("stops", [1, rows_str(rows), flag, code], any(p > 0 for p in full),
+                   "stops-multi" if extra else "stops")
     for code in (-1, 3, 99):
         yield Case("stops", [1, "r:ATGTAAGG,q:ATGTAAGG", 1, code], True, "stops-unknown-code")
         yield Case("stops", [1, "_", 0, code], True, "stops-unknown-code")
